@@ -110,7 +110,11 @@ func execute(c *Cell, p *Plan, tp *tape.Tape, keepLog bool, cap uint64) *Obs {
 	sim := simrt.New(tp, p.Strategy)
 	sim.KeepLog = keepLog
 	if cap > 0 {
+		// the extension of a run cut off at the ordinary cap: same choices as far
+		// as they go, fair scheduling after them, so that a correct spin-wait
+		// that the original strategy starved gets to finish
 		sim.MaxEvents = cap
+		sim.FairTail = true
 	}
 	r := &runner{c: c, p: p, sim: sim, nilF: map[string]bool{}, hasReset: map[string]bool{}}
 	r.obs = &Obs{Cell: c, Plan: p, Sim: sim, Final: map[string][]string{}, FreshLens: map[string]int{}}
@@ -344,24 +348,64 @@ func (r *runner) readElems(s reflect.Value, method string) {
 	}
 }
 
-// arity is the number of parameters of a method of the mocked interface.
-func (r *runner) arity(method string) int {
+// arity returns the parameter types of a method of the mocked interface.
+func (r *runner) arity(method string) []reflect.Type {
 	if m := r.c.method(method); m != nil {
-		return len(m.In)
+		return m.In
 	}
-	return 0
+	return nil
+}
+
+// argFields picks, among the fields of a call record, those that hold the
+// arguments: all of them when there is one per parameter; otherwise the one
+// order-preserving selection whose types are the parameter types (a record may
+// carry other things before, between or after them); the first fields if that
+// selection is not unique.
+func argFields(rec reflect.Type, in []reflect.Type) []int {
+	n := len(in)
+	first := make([]int, 0, n)
+	for j := 0; j < rec.NumField() && j < n; j++ {
+		first = append(first, j)
+	}
+	if rec.NumField() <= n {
+		return first
+	}
+	var found [][]int
+	var walk func(f, p int, cur []int)
+	walk = func(f, p int, cur []int) {
+		if len(found) > 1 {
+			return
+		}
+		if p == n {
+			found = append(found, append([]int(nil), cur...))
+			return
+		}
+		for j := f; j < rec.NumField(); j++ {
+			if rec.Field(j).Type == in[p] {
+				walk(j+1, p+1, append(cur, j))
+			}
+		}
+	}
+	walk(0, 0, nil)
+	if len(found) == 1 {
+		return found[0]
+	}
+	return first
 }
 
 // tuplesOf renders every record of an MCalls() result as the joined idents of
-// its first n fields in declaration order (one per parameter; whatever else a
-// record may carry after them is not the arguments and is not compared).
-func tuplesOf(s reflect.Value, n int) []string {
+// its argument fields in declaration order.
+func tuplesOf(s reflect.Value, in []reflect.Type) []string {
 	out := make([]string, s.Len())
+	var pick []int
+	if et := s.Type().Elem(); et.Kind() == reflect.Struct {
+		pick = argFields(et, in)
+	}
 	for i := range out {
 		e := s.Index(i)
 		var parts []string
 		if e.Kind() == reflect.Struct {
-			for j := 0; j < e.NumField() && j < n; j++ {
+			for _, j := range pick {
 				parts = append(parts, ident(e.Field(j)))
 			}
 		} else {
